@@ -31,6 +31,7 @@ MaskB == [shape |-> <<4, 8, 5>>, zero |-> { <<i, j, k>> : i \in 0..1, j \in 0..7
 MaskC == [shape |-> <<7, 8, 7>>, zero |-> { <<i, j, k>> : i \in 0..6, j \in 0..7, k \in 0..6 }]
 
 SmallOps == { [name |-> "oob", kind |-> "center", box |-> 0],
+              [name |-> "oob", kind |-> "center", box |-> 4],       \* a box size given with 'center' is ignored
               [name |-> "oob", kind |-> "whole", box |-> 2],
               [name |-> "oob", kind |-> "whole", box |-> 4],
               [name |-> "trim", start |-> <<1, 1, 1>>, end |-> <<6, 5, 7>>],
